@@ -37,6 +37,14 @@ CHECKS["C15"] = dict(
          "then evaluates it against the indices retained by the real code for every multiset of <= K candidates over the grid and every request, plus random larger lists. A pure function over a small value domain: exhaustive grids are the right level.",
     note="Trusts TLC and the verif export VerifRetainBest (a 6-line wrapper around fontSet.retainsBestMatches). Values outside the grids are sampled only.")
 
+CHECKS["C14"] = dict(
+    engine="fm",
+    technique="TLA+ property spec of the documented resolution order (FontMap.tla, re-using CSSMatch), implementation model with lazy candidates + LRU model-checked against it (FontMapImpl.tla), TLC-generated exhaustive operation histories replayed on the real FontMap and validated by the FontMapV monitor",
+    category="model_checking", design_ref="DESIGN.md §5 C14",
+    text="FontMap!Allowed(db, query, script, rune) is the set of faces the documented priority permits; TLC (a) proves that the cache/flag design refines it for all histories up to a bound, "
+         "(b) enumerates every history up to length D over a small operation alphabet, which the harness executes on the real FontMap with synthetic fonts, and (c) validates these and random 25-step histories event by event: NonNil, Priority, Functional (memo across the trace), FreshEq (same answer as a map rebuilt from scratch).",
+    note="Trusts TLC, synthetic fonts written by WriteTTF (cmap 12 + head + maxp), intended coverage as fact. Substitution tables and system-font index are outside this check. Bounded history length / alphabet.")
+
 NOT_YET = {}
 NA = {
  "C05": "defined as agreement with the reference C HarfBuzz; no reference shaper (uharfbuzz/hb-shape) exists in this sealed sandbox and re-specifying HarfBuzz in TLA+ would make the spec the reference (DESIGN §6)",
